@@ -4,383 +4,6 @@
 use std::cmp::{max, min};
 verus! {
 
-//@ include units/shared/balance_table.inc
-//@ include units/shared/set.inc
-
-pub struct PaddedPieceSize(pub u64);
-pub type AllocationID = u64;
-//@ item actors/market/src/deal.rs Label
-//@ item actors/market/src/deal.rs DealProposal
-//@ item actors/market/src/deal.rs DealState attr="#[derive(Clone, Copy)]"
-//@ item actors/market/src/state.rs Reason
-//@ item actors/market/src/state.rs State
-//@ item actors/market/src/state.rs PendingProposalsSet
-//@ const actors/market/src/state.rs PENDING_PROPOSALS_CONFIG
-
-// ======================= spec =======================
-pub open spec fn esc(s: State) -> Map<Address, TokenAmount> { map2_decode::<Address, TokenAmount>(s.escrow_table) }
-pub open spec fn lck(s: State) -> Map<Address, TokenAmount> { map2_decode::<Address, TokenAmount>(s.locked_table) }
-pub open spec fn pend(s: State) -> vstd::set::Set<Cid> { map2_decode::<Cid, ()>(s.pending_proposals).dom() }
-
-/// per-participant escrow invariant of C06: 0 <= locked[a] <= escrow[a]
-pub open spec fn jinv(s: State) -> bool {
-    &&& bt_wf(esc(s))
-    &&& bt_wf(lck(s))
-    &&& forall|a: Address| #[trigger] bal(lck(s), a) <= bal(esc(s), a)
-}
-pub open spec fn d2(k: Address, a1: Address, x1: int, a2: Address, x2: int) -> int {
-    (if k == a1 { x1 } else { 0 }) + (if k == a2 { x2 } else { 0 })
-}
-/// table m2 is m1 with x1 added at a1 and x2 added at a2 (a1 may equal a2); every other key unchanged
-pub open spec fn moved(m1: Map<Address, TokenAmount>, m2: Map<Address, TokenAmount>, a1: Address, x1: int, a2: Address, x2: int) -> bool {
-    forall|k: Address| #[trigger] bal(m2, k) == bal(m1, k) + d2(k, a1, x1, a2, x2)
-}
-/// everything that is not a balance table or a locked total
-pub open spec fn rest_eq(a: State, b: State) -> bool {
-    &&& a.proposals == b.proposals
-    &&& a.states == b.states
-    &&& a.next_id == b.next_id
-    &&& a.deal_ops_by_epoch == b.deal_ops_by_epoch
-    &&& a.last_cron == b.last_cron
-    &&& a.pending_deal_allocation_ids == b.pending_deal_allocation_ids
-    &&& a.provider_sectors == b.provider_sectors
-}
-pub open spec fn totals_eq(a: State, b: State) -> bool {
-    &&& a.total_client_locked_collateral@ == b.total_client_locked_collateral@
-    &&& a.total_provider_locked_collateral@ == b.total_provider_locked_collateral@
-    &&& a.total_client_storage_fee@ == b.total_client_storage_fee@
-}
-pub open spec fn deal_wf(d: DealProposal) -> bool {
-    &&& 0 <= d.start_epoch <= d.end_epoch
-    &&& d.storage_price_per_epoch@ >= 0
-    &&& d.provider_collateral@ >= 0
-    &&& d.client_collateral@ >= 0
-}
-pub open spec fn fee(d: DealProposal) -> int { d.storage_price_per_epoch@ * (d.end_epoch - d.start_epoch) }
-
-// ======================= DealProposal helpers =======================
-//@ fn actors/market/src/deal.rs DealProposal::duration
-    requires 0 <= self.start_epoch, 0 <= self.end_epoch,
-    ensures r == self.end_epoch - self.start_epoch,
-//@ end
-//@ fn actors/market/src/deal.rs DealProposal::total_storage_fee
-    requires deal_wf(*self),
-    ensures r@ == fee(*self),
-//@ end
-//@ fn actors/market/src/deal.rs DealProposal::client_balance_requirement
-    requires deal_wf(*self),
-    ensures r@ == self.client_collateral@ + fee(*self),
-//@ end
-//@ fn actors/market/src/deal.rs DealProposal::provider_balance_requirement
-    ensures r@ == self.provider_collateral@,
-//@ end
-//@ fn actors/market/src/policy.rs collateral_penalty_for_deal_activation_missed
-    ensures r@ == provider_collateral@,     // "burnt in full on ... missed activation"
-//@ end
-
-// ======================= escrow / locked tables (C06) =======================
-//@ fn actors/market/src/state.rs State::add_balance_to_escrow_table
-    requires jinv(*old(self)),
-    ensures
-        rest_eq(*old(self), *final(self)), totals_eq(*old(self), *final(self)),
-        final(self).locked_table == old(self).locked_table,
-        final(self).pending_proposals == old(self).pending_proposals,
-        r.is_ok() ==> bal(esc(*old(self)), *addr) + amount@ >= 0
-            && moved(esc(*old(self)), esc(*final(self)), *addr, amount@, *addr, 0)
-            && (amount@ >= 0 ==> jinv(*final(self))),
-        r.is_err() ==> *final(self) == *old(self),
-//@ end
-
-//@ fn actors/market/src/state.rs State::withdraw_balance_from_escrow_table
-    requires jinv(*old(self)),
-    ensures
-        rest_eq(*old(self), *final(self)), totals_eq(*old(self), *final(self)),
-        final(self).locked_table == old(self).locked_table,
-        final(self).pending_proposals == old(self).pending_proposals,
-        // "can withdraw exactly its escrow minus its locked amount" (capped by the request)
-        r.is_ok() ==> ({
-            let avail = bal(esc(*old(self)), *addr) - bal(lck(*old(self)), *addr);
-            let ex = if amount@ <= avail { amount@ } else { avail };
-            &&& r->Ok_0@ == ex
-            &&& moved(esc(*old(self)), esc(*final(self)), *addr, if ex > 0 { -ex } else { 0 }, *addr, 0)
-            &&& jinv(*final(self))
-        }),
-        r.is_err() ==> *final(self) == *old(self),
-//@ end
-
-//@ fn actors/market/src/state.rs State::balance_covered
-    requires jinv(*self),
-    ensures
-        r.is_ok() ==> r->Ok_0 == (bal(lck(*self), addr) + amount_to_lock@ <= bal(esc(*self), addr)),
-//@ end
-
-//@ fn actors/market/src/state.rs State::maybe_lock_balance
-    requires jinv(*old(self)),
-    ensures
-        rest_eq(*old(self), *final(self)), totals_eq(*old(self), *final(self)),
-        final(self).escrow_table == old(self).escrow_table,
-        final(self).pending_proposals == old(self).pending_proposals,
-        // locks only what is covered by unlocked escrow
-        r.is_ok() ==> amount@ >= 0
-            && bal(lck(*old(self)), *addr) + amount@ <= bal(esc(*old(self)), *addr)
-            && moved(lck(*old(self)), lck(*final(self)), *addr, amount@, *addr, 0)
-            && jinv(*final(self)),
-        r.is_err() ==> *final(self) == *old(self),
-//@ end
-
-//@ fn actors/market/src/state.rs State::lock_client_and_provider_balances
-    requires jinv(*old(self)), deal_wf(*proposal),
-    ensures
-        rest_eq(*old(self), *final(self)),
-        final(self).pending_proposals == old(self).pending_proposals,
-        r.is_ok() ==> final(self).escrow_table == old(self).escrow_table
-            && moved(lck(*old(self)), lck(*final(self)), proposal.client, proposal.client_collateral@ + fee(*proposal),
-                     proposal.provider, proposal.provider_collateral@)
-            && final(self).total_client_locked_collateral@ == old(self).total_client_locked_collateral@ + proposal.client_collateral@
-            && final(self).total_client_storage_fee@ == old(self).total_client_storage_fee@ + fee(*proposal)
-            && final(self).total_provider_locked_collateral@ == old(self).total_provider_locked_collateral@ + proposal.provider_collateral@
-            && jinv(*final(self)),
-//@ end
-
-//@ fn actors/market/src/state.rs State::unlock_balance
-    requires bt_wf(lck(*old(self))),
-    ensures
-        rest_eq(*old(self), *final(self)),
-        final(self).escrow_table == old(self).escrow_table,
-        final(self).pending_proposals == old(self).pending_proposals,
-        r.is_ok() ==> 0 <= amount@ <= bal(lck(*old(self)), *addr)
-            && moved(lck(*old(self)), lck(*final(self)), *addr, -amount@, *addr, 0)
-            && bt_wf(lck(*final(self)))
-            && (jinv(*old(self)) ==> jinv(*final(self)))
-            && final(self).total_client_locked_collateral@ == old(self).total_client_locked_collateral@ - (if lock_reason is ClientCollateral { amount@ } else { 0 })
-            && final(self).total_client_storage_fee@ == old(self).total_client_storage_fee@ - (if lock_reason is ClientStorageFee { amount@ } else { 0 })
-            && final(self).total_provider_locked_collateral@ == old(self).total_provider_locked_collateral@ - (if lock_reason is ProviderCollateral { amount@ } else { 0 }),
-//@ end
-
-//@ fn actors/market/src/state.rs State::transfer_balance
-    requires jinv(*old(self)),
-    ensures
-        rest_eq(*old(self), *final(self)),
-        final(self).pending_proposals == old(self).pending_proposals,
-        // funds move from the payer's locked escrow to the payee's free escrow, atto for atto
-        r.is_ok() ==> 0 <= amount@ <= bal(lck(*old(self)), *from_addr),
-        r.is_ok() ==> moved(esc(*old(self)), esc(*final(self)), *from_addr, -amount@, *to_addr, amount@),
-        r.is_ok() ==> moved(lck(*old(self)), lck(*final(self)), *from_addr, -amount@, *from_addr, 0),
-        r.is_ok() ==> final(self).total_client_storage_fee@ == old(self).total_client_storage_fee@ - amount@,
-        r.is_ok() ==> final(self).total_client_locked_collateral@ == old(self).total_client_locked_collateral@,
-        r.is_ok() ==> final(self).total_provider_locked_collateral@ == old(self).total_provider_locked_collateral@,
-        r.is_ok() ==> jinv(*final(self)),
-//@ end
-
-//@ fn actors/market/src/state.rs State::slash_balance
-    requires jinv(*old(self)),
-    ensures
-        rest_eq(*old(self), *final(self)),
-        final(self).pending_proposals == old(self).pending_proposals,
-        r.is_ok() ==> 0 <= amount@ <= bal(lck(*old(self)), *addr)
-            && moved(esc(*old(self)), esc(*final(self)), *addr, -amount@, *addr, 0)
-            && moved(lck(*old(self)), lck(*final(self)), *addr, -amount@, *addr, 0)
-            && jinv(*final(self))
-            && final(self).total_client_locked_collateral@ == old(self).total_client_locked_collateral@ - (if lock_reason is ClientCollateral { amount@ } else { 0 })
-            && final(self).total_client_storage_fee@ == old(self).total_client_storage_fee@ - (if lock_reason is ClientStorageFee { amount@ } else { 0 })
-            && final(self).total_provider_locked_collateral@ == old(self).total_provider_locked_collateral@ - (if lock_reason is ProviderCollateral { amount@ } else { 0 }),
-//@ end
-
-// ======================= deal ids (C08) =======================
-//@ fn actors/market/src/state.rs State::generate_storage_deal_id
-    requires old(self).next_id < u64::MAX,
-    ensures
-        r == old(self).next_id,                             // ids are handed out in increasing order ...
-        final(self).next_id == old(self).next_id + 1,       // ... and never reused
-        final(self).escrow_table == old(self).escrow_table, final(self).locked_table == old(self).locked_table,
-        final(self).proposals == old(self).proposals, final(self).states == old(self).states,
-        final(self).pending_proposals == old(self).pending_proposals,
-        totals_eq(*old(self), *final(self)),
-//@ end
-
-// ======================= pending proposals (C08) =======================
-//@ fn actors/market/src/state.rs State::load_pending_deals
-    ensures r.is_ok() ==> r->Ok_0.0.view().dom() == pend(*self),
-//@ end
-//@ fn actors/market/src/state.rs State::save_pending_deals
-    ensures
-        r.is_ok() ==> pend(*final(self)) == old(pending_deals).0.view().dom(),
-        r.is_err() ==> *final(self) == *old(self),
-        final(self).escrow_table == old(self).escrow_table, final(self).locked_table == old(self).locked_table,
-        rest_eq(*old(self), *final(self)), totals_eq(*old(self), *final(self)),
-//@ end
-//@ fn actors/market/src/state.rs State::has_pending_deal
-    ensures r.is_ok() ==> r->Ok_0 == pend(*self).contains(*key),
-//@ end
-//@ fn actors/market/src/state.rs State::remove_pending_deal
-    ensures
-        r.is_ok() ==> pend(*final(self)) == pend(*old(self)).remove(pending_deal_key),
-        r.is_ok() ==> (r->Ok_0.is_some() <==> pend(*old(self)).contains(pending_deal_key)),
-        r.is_err() ==> *final(self) == *old(self),
-        final(self).escrow_table == old(self).escrow_table, final(self).locked_table == old(self).locked_table,
-        rest_eq(*old(self), *final(self)), totals_eq(*old(self), *final(self)),
-//@ end
-
-// ======================= deal payments (C07) =======================
-// The statement's payment function, written from the property:
-//   the provider is credited price-per-epoch for every epoch in [start, min(end, termination)).
-pub open spec fn imax(a: int, b: int) -> int { if a >= b { a } else { b } }
-pub open spec fn imin(a: int, b: int) -> int { if a <= b { a } else { b } }
-pub open spec fn clamp(d: DealProposal, e: int) -> int { imax(d.start_epoch as int, imin(d.end_epoch as int, e)) }
-/// total owed to the provider for storage up to (not including) epoch e
-pub open spec fn paid_upto(d: DealProposal, e: int) -> int { d.storage_price_per_epoch@ * (clamp(d, e) - d.start_epoch) }
-/// effective "paid so far" marker of a deal state
-pub open spec fn lu_eff(d: DealProposal, s: DealState) -> int { if s.last_updated_epoch == EPOCH_UNDEFINED { d.start_epoch as int } else { s.last_updated_epoch as int } }
-pub open spec fn state_wf(s: DealState) -> bool {
-    s.last_updated_epoch >= -1 && s.slash_epoch >= -1 && s.sector_start_epoch >= -1
-}
-
-//@ fn actors/market/src/state.rs deal_get_payment_remaining
-    requires 0 <= deal.start_epoch, 0 <= deal.end_epoch, slash_epoch >= -1,
-    ensures
-        r.is_ok() <==> slash_epoch <= deal.end_epoch && deal.start_epoch <= deal.end_epoch,
-        // unspent fee: every epoch from max(slash, start) to end
-        r.is_ok() ==> r->Ok_0@ == deal.storage_price_per_epoch@ * (deal.end_epoch - imax(slash_epoch as int, deal.start_epoch as int)),
-//@ end
-
-//@ fn actors/market/src/state.rs State::process_deal_expired
-    requires jinv(*old(self)),
-    ensures
-        rest_eq(*old(self), *final(self)),
-        final(self).escrow_table == old(self).escrow_table,
-        final(self).pending_proposals == old(self).pending_proposals,
-        // both collaterals are released, nothing else moves
-        r.is_ok() ==> moved(lck(*old(self)), lck(*final(self)), deal.provider, -deal.provider_collateral@, deal.client, -deal.client_collateral@),
-        r.is_ok() ==> final(self).total_provider_locked_collateral@ == old(self).total_provider_locked_collateral@ - deal.provider_collateral@,
-        r.is_ok() ==> final(self).total_client_locked_collateral@ == old(self).total_client_locked_collateral@ - deal.client_collateral@,
-        r.is_ok() ==> final(self).total_client_storage_fee@ == old(self).total_client_storage_fee@,
-        r.is_ok() ==> jinv(*final(self)),
-        r.is_ok() ==> state.sector_start_epoch != EPOCH_UNDEFINED,
-//@ end
-
-//@ fn actors/market/src/state.rs State::process_deal_init_timed_out
-    requires jinv(*old(self)), deal_wf(*deal),
-    ensures
-        rest_eq(*old(self), *final(self)),
-        final(self).pending_proposals == old(self).pending_proposals,
-        // missed activation: provider collateral burnt in full, client fully refunded (fee and collateral unlocked)
-        r.is_ok() ==> r->Ok_0@ == deal.provider_collateral@,
-        r.is_ok() ==> moved(esc(*old(self)), esc(*final(self)), deal.provider, -deal.provider_collateral@, deal.provider, 0),
-        r.is_ok() ==> moved(lck(*old(self)), lck(*final(self)), deal.client, -(fee(*deal) + deal.client_collateral@), deal.provider, -deal.provider_collateral@),
-        r.is_ok() ==> final(self).total_client_storage_fee@ == old(self).total_client_storage_fee@ - fee(*deal),
-        r.is_ok() ==> final(self).total_client_locked_collateral@ == old(self).total_client_locked_collateral@ - deal.client_collateral@,
-        r.is_ok() ==> final(self).total_provider_locked_collateral@ == old(self).total_provider_locked_collateral@ - deal.provider_collateral@,
-        r.is_ok() ==> jinv(*final(self)),
-//@ end
-
-//@ fn actors/market/src/state.rs State::process_slashed_deal
-    requires jinv(*old(self)), deal_wf(*proposal), state_wf(*state),
-    ensures
-        rest_eq(*old(self), *final(self)),
-        final(self).pending_proposals == old(self).pending_proposals,
-        r.is_ok() ==> ({
-            let d = *proposal;
-            // paid now: price * max(0, min(end, slash) - max(start, last_updated))
-            let n = imax(0, imin(d.end_epoch as int, state.slash_epoch as int) - imax(d.start_epoch as int, state.last_updated_epoch as int));
-            let pay = d.storage_price_per_epoch@ * n;
-            let refund = d.storage_price_per_epoch@ * (d.end_epoch - imax(state.slash_epoch as int, d.start_epoch as int));
-            // provider collateral returned as slashed, in full
-            &&& r->Ok_0@ == d.provider_collateral@
-            &&& state.slash_epoch <= d.end_epoch
-            // escrow: client pays `pay` to provider; provider loses its collateral
-            &&& forall|k: Address| #[trigger] bal(esc(*final(self)), k) == bal(esc(*old(self)), k)
-                    + d2(k, d.client, -pay, d.provider, pay) + d2(k, d.provider, -d.provider_collateral@, d.provider, 0)
-            // locked: client's payment, unspent fee and collateral all leave the locked table, provider's collateral too
-            &&& forall|k: Address| #[trigger] bal(lck(*final(self)), k) == bal(lck(*old(self)), k)
-                    + d2(k, d.client, -(pay + refund + d.client_collateral@), d.provider, -d.provider_collateral@)
-            &&& final(self).total_client_storage_fee@ == old(self).total_client_storage_fee@ - pay - refund
-            &&& final(self).total_client_locked_collateral@ == old(self).total_client_locked_collateral@ - d.client_collateral@
-            &&& final(self).total_provider_locked_collateral@ == old(self).total_provider_locked_collateral@ - d.provider_collateral@
-            &&& jinv(*final(self))
-        }),
-//@ end
-
-//@ fn actors/market/src/state.rs State::process_deal_update ret=res
-    requires jinv(*old(self)), deal_wf(*deal), state_wf(*state), epoch >= 0,
-    ensures
-        rest_eq(*old(self), *final(self)),
-        // a settlement of a deal that has not started changes no balance and pays nothing
-        res.is_ok() && deal.start_epoch > epoch ==>
-            final(self).escrow_table == old(self).escrow_table && final(self).locked_table == old(self).locked_table
-            && totals_eq(*old(self), *final(self))
-            && res->Ok_0.0@ == 0 && res->Ok_0.1@ == 0 && !res->Ok_0.2 && !res->Ok_0.3,
-        res.is_ok() ==> !(state.last_updated_epoch != EPOCH_UNDEFINED && state.last_updated_epoch > epoch),
-        // the un-slashed case (the only one reachable once terminations are synchronous)
-        res.is_ok() && deal.start_epoch <= epoch && state.slash_epoch == EPOCH_UNDEFINED && lu_eff(*deal, *state) <= deal.end_epoch ==> ({
-            let d = *deal;
-            // exactly the epochs in [max(start, last_updated), min(end, epoch)): no epoch twice, none skipped
-            let pay = paid_upto(d, epoch as int) - paid_upto(d, lu_eff(d, *state));
-            let done = epoch >= d.end_epoch;
-            let pc = if done { d.provider_collateral@ } else { 0 };
-            let cc = if done { d.client_collateral@ } else { 0 };
-            &&& res->Ok_0.0@ == 0
-            &&& res->Ok_0.1@ == pay
-            &&& pay >= 0
-            &&& res->Ok_0.2 == done && res->Ok_0.3 == done
-            &&& moved(esc(*old(self)), esc(*final(self)), d.client, -pay, d.provider, pay)
-            &&& moved(lck(*old(self)), lck(*final(self)), d.client, -(pay + cc), d.provider, -pc)
-            &&& final(self).total_client_storage_fee@ == old(self).total_client_storage_fee@ - pay
-            &&& final(self).total_client_locked_collateral@ == old(self).total_client_locked_collateral@ - cc
-            &&& final(self).total_provider_locked_collateral@ == old(self).total_provider_locked_collateral@ - pc
-            &&& jinv(*final(self))
-        }),
-//@ entry
-        proof { lemma_pay_window(*deal, epoch as int, lu_eff(*deal, *state)); }
-//@ end
-
-/// the payment for the window (b, a] is the price times the number of deal epochs in it, and is never negative
-pub proof fn lemma_pay_window(d: DealProposal, a: int, b: int)
-    requires d.storage_price_per_epoch@ >= 0
-    ensures
-        paid_upto(d, a) - paid_upto(d, b) == d.storage_price_per_epoch@ * (clamp(d, a) - clamp(d, b)),
-        a >= b ==> paid_upto(d, a) - paid_upto(d, b) >= 0,
-{
-    let p = d.storage_price_per_epoch@;
-    let (x, y, s0) = (clamp(d, a), clamp(d, b), d.start_epoch as int);
-    assert(p * (x - s0) - p * (y - s0) == p * (x - y)) by (nonlinear_arith);
-    if a >= b {
-        assert(x >= y);
-        assert(p * (x - y) >= 0) by (nonlinear_arith) requires p >= 0, x >= y;
-    }
-}
-
-// ---- telescoping: any schedule of settlements pays the same total (pure lemma over the spec) ----
-/// sum of the per-call payments for settlement epochs es[0] <= es[1] <= ... starting from marker `from`
-pub open spec fn pay_seq(d: DealProposal, from: int, es: Seq<int>) -> int
-    decreases es.len()
-{
-    if es.len() == 0 { 0 } else { (paid_upto(d, es[0]) - paid_upto(d, from)) + pay_seq(d, es[0], es.subrange(1, es.len() as int)) }
-}
-pub proof fn settlement_path_independent(d: DealProposal, from: int, es: Seq<int>)
-    requires es.len() > 0
-    ensures pay_seq(d, from, es) == paid_upto(d, es.last()) - paid_upto(d, from)
-    decreases es.len()
-{
-    let tail = es.subrange(1, es.len() as int);
-    assert(pay_seq(d, from, es) == (paid_upto(d, es[0]) - paid_upto(d, from)) + pay_seq(d, es[0], tail));
-    if es.len() > 1 {
-        settlement_path_independent(d, es[0], tail);
-        assert(tail.last() == es.last());
-    } else {
-        assert(tail.len() == 0);
-        assert(pay_seq(d, es[0], tail) == 0);
-        assert(es.last() == es[0]);
-    }
-}
-/// settled through the end, the provider has received exactly the whole storage fee
-pub proof fn full_payment_is_fee(d: DealProposal, e: int)
-    requires d.start_epoch <= d.end_epoch, e >= d.end_epoch
-    ensures paid_upto(d, e) - paid_upto(d, d.start_epoch as int) == fee(d)
-{
-    assert(clamp(d, e) == d.end_epoch);
-    assert(clamp(d, d.start_epoch as int) == d.start_epoch);
-    assert(d.storage_price_per_epoch@ * (d.start_epoch - d.start_epoch) == 0) by (nonlinear_arith);
-}
-
+//@ include units/shared/market_state.inc
 } // verus!
 fn main() {}
